@@ -57,3 +57,53 @@ Lemma randomized_svd_factored {F} (Op : fops F) svd qr G (M : list (list F)) d1 
     let '(U, Sg, V) := truncated_svd (svd Mred) c d2 (Some k) in
     (mmul Op (ncols U) Q U, Sg, V).
 Proof. unfold randomized_svd, dec_rand_ndims, dec_rand_transposed. destruct (svd_checks d1 d2 n) as [[k mn] mx]. reflexivity. Qed.
+
+(* ---------- round 5: the post-processing pipeline of svd_interface as a TRACE of steps ----------
+   svd_interface = dispatch, then an interpreter (run_step) folded over interface_trace: which steps run, and in which order, as
+   a function of the options.  On every run the harness re-derives the trace from the statement order and the guards of the
+   current Python source (`if mask is not None and n_eigenvecs is not None`, `if flip_sign`, `if non_negative is not False and
+   non_negative is not None`) and proves it equal to interface_trace / nn_truthy. *)
+Inductive istep := StepCall | StepMaskLoop | StepFlip | StepNN.
+Definition interface_trace (mask_given n_given flip nn_on : bool) : list istep :=
+  [StepCall] ++ (if mask_given && n_given then [StepMaskLoop] else []) ++ (if flip then [StepFlip] else [])
+             ++ (if nn_on then [StepNN] else []).
+(* the Python values of the non_negative argument: None / False / True / a string *)
+Inductive nnarg := NNnone | NNfalse | NNtrue | NNstr.
+Definition nn_is_none (a : nnarg) : bool := match a with NNnone => true | _ => false end.
+Definition nn_is_false (a : nnarg) : bool := match a with NNfalse => true | _ => false end.
+Definition nn_truthy (a : nnarg) : bool := match a with NNtrue | NNstr => true | _ => false end.   (* = the model's nn is Some _ *)
+
+Section Trace.
+Context {F : Type} (Op : fops F).
+Definition run_step (svd_fun : nat -> list (list F) -> triple F) (d2 : nat) (mask : list (list F)) (iters : nat) (ub : bool)
+    (ty : nntype) (sq : F -> F) (eps : F) (st : list (list F) * triple F) (s : istep) : list (list F) * triple F :=
+  let '(M, (U, Sg, V)) := st in
+  match s with
+  | StepCall => (M, svd_fun 0 M)
+  | StepMaskLoop => mask_loop Op svd_fun d2 mask iters 1 M (U, Sg, V)
+  | StepFlip => let '(U', V') := svd_flip Op U V ub in (M, (U', Sg, V'))
+  | StepNN => let '(U', V') := make_svd_non_negative Op sq eps M U Sg V ty in (M, (U', Sg, V'))
+  end.
+Definition is_some {A} (o : option A) : bool := match o with Some _ => true | None => false end.
+
+Lemma svd_interface_traced funs meth d2 (M : list (list F)) n flip ub nn mask iters sq eps :
+  svd_interface Op funs meth d2 M n flip ub nn mask iters sq eps =
+  match dispatch meth with
+  | None => Err
+  | Some f =>
+    Ok (snd (fold_left (run_step (funs f) d2 (match mask with Some m => m | None => [] end) iters ub
+                                 (match nn with Some ty => ty | None => NNDSVD end) sq eps)
+                       (interface_trace (is_some mask) (is_some n) flip (is_some nn)) (M, ([], [], []))))
+  end.
+Proof.
+  unfold svd_interface. destruct (dispatch meth) as [f|]; [|reflexivity].
+  destruct mask as [msk|]; destruct n as [r|]; destruct flip; destruct nn as [ty|];
+    repeat (cbn [is_some interface_trace andb app fold_left run_step snd];
+      match goal with
+      | |- context [funs ?a ?b ?c] => destruct (funs a b c) as [[? ?] ?]
+      | |- context [mask_loop ?a ?b ?c ?d ?e ?f0 ?g ?h] => destruct (mask_loop a b c d e f0 g h) as [? [[? ?] ?]]
+      | |- context [svd_flip ?a ?b ?c ?d] => destruct (svd_flip a b c d) as [? ?]
+      | |- context [make_svd_non_negative ?a ?b ?c ?d ?e ?f0 ?g ?h] => destruct (make_svd_non_negative a b c d e f0 g h) as [? ?]
+      end); cbn [is_some interface_trace andb app fold_left run_step snd]; reflexivity.
+Qed.
+End Trace.
